@@ -10,7 +10,7 @@ import Mathlib.Tactic.NormNum
 -/
 open Finset
 namespace Spdc.Quad
-open Spdc
+open Spdc Spdc.Grid
 
 theorem list_range_map_sum {M : Type} [AddCommMonoid M] (g : ℕ → M) (n : ℕ) :
     ((List.range n).map g).sum = ∑ i ∈ range n, g i := by
@@ -233,5 +233,336 @@ theorem simpsonCore_linear (f g : ℝ → Cx ℝ) (al be : Cx ℝ) (a b : ℝ) (
   apply Finset.sum_congr rfl
   intro i _
   ring
+
+/-- `Steps(a, b, d+1).value i = a + i·(b−a)/d` over ℝ (for `d ≥ 1`) -/
+theorem stepsValue_real (a b : ℝ) (d i : ℕ) (hd : 1 ≤ d) :
+    (Steps.value ⟨a, b, d + 1⟩ i : ℝ) = a + (i : ℝ) * ((b - a) / (d : ℝ)) := by
+  have hd0 : (d : ℝ) ≠ 0 := by have : d ≠ 0 := by omega
+                               exact_mod_cast this
+  have h1 : d + 1 > 1 := by omega
+  simp only [Steps.value, h1, if_true, Nat.add_sub_cancel]
+  field_simp; ring
+
+/-- the 2-D rule as nested 1-D weighted sums over the nodes `ax + i·dx`, `ay + j·dy` -/
+theorem simpson2dCore_toC (f : ℝ → ℝ → Cx ℝ) (ax bx ay by_ : ℝ) (d : ℕ) (hd : 1 ≤ d) :
+    (simpson2dCore f ax bx ay by_ d).toC
+      = (∑ j ∈ range (d + 1), wK ℂ j d *
+          ((∑ i ∈ range (d + 1), wK ℂ i d *
+              (f (ax + (i : ℝ) * ((bx - ax) / (d : ℝ))) (ay + (j : ℝ) * ((by_ - ay) / (d : ℝ)))).toC)
+            * ((((bx - ax) / (d : ℝ)) / 3 : ℝ) : ℂ)))
+        * ((((by_ - ay) / (d : ℝ)) / 3 : ℝ) : ℂ) := by
+  unfold simpson2dCore
+  simp only [Cx.toC_muls, Cx.toC_sum, List.map_map, list_range_map_sum, Function.comp,
+    stepsValue_real _ _ d _ hd, simpsonW_real, wK_cast]
+  rw [Finset.sum_mul, Finset.sum_mul]
+  apply Finset.sum_congr rfl
+  intro j _
+  simp only [Finset.mul_sum, Finset.sum_mul]
+  apply Finset.sum_congr rfl
+  intro i _
+  have h9 : (9.0 : ℝ) = 9 := by norm_num
+  rw [h9]; push_cast; ring
+
+/-- separability: the 2-D rule on `g(x)·h(y)` is the product of the 1-D rules (same count) -/
+theorem simpson2dCore_sep (g h : ℝ → Cx ℝ) (ax bx ay by_ : ℝ) (d : ℕ) (hd : 1 ≤ d) :
+    (simpson2dCore (fun x y => Cx.mul (g x) (h y)) ax bx ay by_ d).toC
+      = (simpsonCore g ax bx d).toC * (simpsonCore h ay by_ d).toC := by
+  rw [simpson2dCore_toC _ _ _ _ _ _ hd, simpsonCore_toC, simpsonCore_toC]
+  simp only [Cx.toC_mul']
+  have inner : ∀ j : ℕ,
+      ∑ i ∈ range (d + 1), wK ℂ i d * ((g (ax + (i : ℝ) * ((bx - ax) / (d : ℝ)))).toC
+          * (h (ay + (j : ℝ) * ((by_ - ay) / (d : ℝ)))).toC)
+        = (∑ i ∈ range (d + 1), wK ℂ i d * (g (ax + (i : ℝ) * ((bx - ax) / (d : ℝ)))).toC)
+          * (h (ay + (j : ℝ) * ((by_ - ay) / (d : ℝ)))).toC := by
+    intro j; rw [Finset.sum_mul]; apply Finset.sum_congr rfl; intro i _; ring
+  simp only [inner]
+  rw [mul_mul_mul_comm, Finset.mul_sum, Finset.sum_mul, Finset.sum_mul]
+  apply Finset.sum_congr rfl
+  intro j _
+  ring
+
+/-- bi-cubic integrand: rows are the coefficients of `y^j` -/
+theorem poly2Eval44_toC (r0 r1 r2 r3 : Cx ℝ × Cx ℝ × Cx ℝ × Cx ℝ) (x y : ℝ) :
+    (poly2Eval [[r0.1, r0.2.1, r0.2.2.1, r0.2.2.2], [r1.1, r1.2.1, r1.2.2.1, r1.2.2.2],
+        [r2.1, r2.2.1, r2.2.2.1, r2.2.2.2], [r3.1, r3.2.1, r3.2.2.1, r3.2.2.2]] x y).toC
+      = cubic (cubic r0.1.toC r0.2.1.toC r0.2.2.1.toC r0.2.2.2.toC x)
+              (cubic r1.1.toC r1.2.1.toC r1.2.2.1.toC r1.2.2.2.toC x)
+              (cubic r2.1.toC r2.2.1.toC r2.2.2.1.toC r2.2.2.2.toC x)
+              (cubic r3.1.toC r3.2.1.toC r3.2.2.1.toC r3.2.2.2.toC x) y := by
+  simp only [poly2Eval, List.foldr, Cx.toC_add', Cx.toC_muls, Cx.toC_zero, polyEval4_toC]
+  simp only [cubic]; ring
+
+/-- antiderivative in `x` of a bi-cubic, as a cubic in `y` -/
+noncomputable def rowAnti (r : Cx ℝ × Cx ℝ × Cx ℝ × Cx ℝ) (a b : ℝ) : ℂ :=
+  cubicAnti r.1.toC r.2.1.toC r.2.2.1.toC r.2.2.2.toC b - cubicAnti r.1.toC r.2.1.toC r.2.2.1.toC r.2.2.2.toC a
+
+theorem simpson2dCore_bicubic (r0 r1 r2 r3 : Cx ℝ × Cx ℝ × Cx ℝ × Cx ℝ) (ax bx ay by_ : ℝ) (m : ℕ)
+    (hm : 1 ≤ m) :
+    (simpson2dCore (poly2Eval [[r0.1, r0.2.1, r0.2.2.1, r0.2.2.2], [r1.1, r1.2.1, r1.2.2.1, r1.2.2.2],
+        [r2.1, r2.2.1, r2.2.2.1, r2.2.2.2], [r3.1, r3.2.1, r3.2.2.1, r3.2.2.2]]) ax bx ay by_ (2 * m)).toC
+      = cubicAnti (rowAnti r0 ax bx) (rowAnti r1 ax bx) (rowAnti r2 ax bx) (rowAnti r3 ax bx) by_
+        - cubicAnti (rowAnti r0 ax bx) (rowAnti r1 ax bx) (rowAnti r2 ax bx) (rowAnti r3 ax bx) ay := by
+  rw [simpson2dCore_toC _ _ _ _ _ _ (by omega)]
+  simp only [poly2Eval44_toC]
+  have hm0 : ((2 * m : ℕ) : ℂ) ≠ 0 := by
+    have : (2 * m : ℕ) ≠ 0 := by omega
+    exact_mod_cast this
+  set hx : ℂ := ((bx : ℂ) - ax) / ((2 * m : ℕ) : ℂ) with hhx
+  set hy : ℂ := ((by_ : ℂ) - ay) / ((2 * m : ℕ) : ℂ) with hhy
+  have ebx : (ax : ℂ) + ((2 * m : ℕ) : ℂ) * hx = bx := by rw [hhx]; field_simp; ring
+  have eby : (ay : ℂ) + ((2 * m : ℕ) : ℂ) * hy = by_ := by rw [hhy]; field_simp; ring
+  -- inner sums: exact in x for every y
+  have inner : ∀ y : ℂ,
+      (∑ i ∈ range (2 * m + 1), wK ℂ i (2 * m) *
+        cubic (cubic r0.1.toC r0.2.1.toC r0.2.2.1.toC r0.2.2.2.toC ((ax : ℂ) + (i : ℂ) * hx))
+              (cubic r1.1.toC r1.2.1.toC r1.2.2.1.toC r1.2.2.2.toC ((ax : ℂ) + (i : ℂ) * hx))
+              (cubic r2.1.toC r2.2.1.toC r2.2.2.1.toC r2.2.2.2.toC ((ax : ℂ) + (i : ℂ) * hx))
+              (cubic r3.1.toC r3.2.1.toC r3.2.2.1.toC r3.2.2.2.toC ((ax : ℂ) + (i : ℂ) * hx)) y) * (hx / 3)
+        = cubic (rowAnti r0 ax bx) (rowAnti r1 ax bx) (rowAnti r2 ax bx) (rowAnti r3 ax bx) y := by
+    intro y
+    have key := simpson_telescope
+      (fun x => cubic (cubic r0.1.toC r0.2.1.toC r0.2.2.1.toC r0.2.2.2.toC x)
+              (cubic r1.1.toC r1.2.1.toC r1.2.2.1.toC r1.2.2.2.toC x)
+              (cubic r2.1.toC r2.2.1.toC r2.2.2.1.toC r2.2.2.2.toC x)
+              (cubic r3.1.toC r3.2.1.toC r3.2.2.1.toC r3.2.2.2.toC x) y)
+      (fun x => cubic (cubicAnti r0.1.toC r0.2.1.toC r0.2.2.1.toC r0.2.2.2.toC x)
+              (cubicAnti r1.1.toC r1.2.1.toC r1.2.2.1.toC r1.2.2.2.toC x)
+              (cubicAnti r2.1.toC r2.2.1.toC r2.2.2.1.toC r2.2.2.2.toC x)
+              (cubicAnti r3.1.toC r3.2.1.toC r3.2.2.1.toC r3.2.2.2.toC x) y)
+      (ax : ℂ) hx m hm (fun x => by simp only [cubic, cubicAnti]; ring)
+    rw [key, ebx]
+    simp only [cubic, rowAnti]; ring
+  have outer := simpson_telescope
+    (cubic (rowAnti r0 ax bx) (rowAnti r1 ax bx) (rowAnti r2 ax bx) (rowAnti r3 ax bx))
+    (cubicAnti (rowAnti r0 ax bx) (rowAnti r1 ax bx) (rowAnti r2 ax bx) (rowAnti r3 ax bx))
+    (ay : ℂ) hy m hm (fun y => panel_exact_cubic _ _ _ _ y hy)
+  rw [eby] at outer
+  have hnx : ∀ i : ℕ, ((ax + (i : ℝ) * ((bx - ax) / ((2 * m : ℕ) : ℝ)) : ℝ) : ℂ) = (ax : ℂ) + (i : ℂ) * hx := by
+    intro i; rw [hhx]; push_cast; ring
+  have hny : ∀ j : ℕ, ((ay + (j : ℝ) * ((by_ - ay) / ((2 * m : ℕ) : ℝ)) : ℝ) : ℂ) = (ay : ℂ) + (j : ℂ) * hy := by
+    intro j; rw [hhy]; push_cast; ring
+  have hfx : ((((bx - ax) / ((2 * m : ℕ) : ℝ)) / 3 : ℝ) : ℂ) = hx / 3 := by rw [hhx]; push_cast; ring
+  have hfy : ((((by_ - ay) / ((2 * m : ℕ) : ℝ)) / 3 : ℝ) : ℂ) = hy / 3 := by rw [hhy]; push_cast; ring
+  simp only [hnx, hny, hfx, hfy, inner]
+  exact outer
+
+/-! ### adaptive Simpson -/
+
+theorem mem_fst (f : ℝ → Cx ℝ) (a : ℝ) (fa : Cx ℝ) (b : ℝ) (fb : Cx ℝ) :
+    (quadSimpsonsMem f a fa b fb).1 = (a + b) / 2 ∧ (quadSimpsonsMem f a fa b fb).2.1 = f ((a + b) / 2) := by
+  simp [quadSimpsonsMem, lit_two]
+
+theorem mem_val_toC (f : ℝ → Cx ℝ) (a : ℝ) (fa : Cx ℝ) (b : ℝ) (fb : Cx ℝ) :
+    (quadSimpsonsMem f a fa b fb).2.2.toC
+      = (((b - a) / 6 : ℝ) : ℂ) * (fa.toC + 4 * (f ((a + b) / 2)).toC + fb.toC) := by
+  have h6 : (6.0 : ℝ) = 6 := by norm_num
+  simp [quadSimpsonsMem, lit_two, lit_four, h6]
+
+/-- one three-point Simpson value on a cubic is exact -/
+theorem mem_cubic (c0 c1 c2 c3 : Cx ℝ) (a b : ℝ) :
+    (quadSimpsonsMem (polyEval [c0, c1, c2, c3]) a (polyEval [c0, c1, c2, c3] a) b
+        (polyEval [c0, c1, c2, c3] b)).2.2.toC
+      = cubicAnti c0.toC c1.toC c2.toC c3.toC b - cubicAnti c0.toC c1.toC c2.toC c3.toC a := by
+  rw [mem_val_toC]
+  simp only [polyEval4_toC, cubic, cubicAnti]
+  push_cast; ring
+
+theorem Cx.abs_zero_of_toC {z : Cx ℝ} (h : z.toC = 0) : Cx.abs z = 0 := by
+  rw [Cx.abs_eq, h, norm_zero]
+
+/-- **asr_exact_cubic**: on a cubic, `quad_asr` returns the exact integral from every state that
+carries exact endpoint/midpoint values and an exact `whole` — for every tolerance and every fuel. -/
+theorem quadAsr_cubic (c0 c1 c2 c3 : Cx ℝ) (depth : ℕ) :
+    ∀ (a b eps : ℝ) (whole : Cx ℝ),
+      whole.toC = cubicAnti c0.toC c1.toC c2.toC c3.toC b - cubicAnti c0.toC c1.toC c2.toC c3.toC a →
+      (quadAsr (polyEval [c0, c1, c2, c3]) a (polyEval [c0, c1, c2, c3] a) b (polyEval [c0, c1, c2, c3] b)
+          eps whole ((a + b) / 2) (polyEval [c0, c1, c2, c3] ((a + b) / 2)) depth).toC
+        = cubicAnti c0.toC c1.toC c2.toC c3.toC b - cubicAnti c0.toC c1.toC c2.toC c3.toC a := by
+  induction depth with
+  | zero => intro a b eps whole hw; simpa [quadAsr] using hw
+  | succ d ih =>
+    intro a b eps whole hw
+    set f := polyEval [c0, c1, c2, c3] with hf
+    unfold quadAsr
+    have hl := mem_cubic c0 c1 c2 c3 a ((a + b) / 2)
+    have hr := mem_cubic c0 c1 c2 c3 ((a + b) / 2) b
+    rw [← hf] at hl hr
+    split_ifs with hstop
+    · exact hw
+    · dsimp only
+      split_ifs with hacc
+      · -- subdivided: induction hypothesis on both halves
+        obtain ⟨hl1, hl2⟩ := mem_fst f a (f a) ((a + b) / 2) (f ((a + b) / 2))
+        obtain ⟨hr1, hr2⟩ := mem_fst f ((a + b) / 2) (f ((a + b) / 2)) b (f b)
+        rw [Cx.toC_add', hl1, hl2, hr1, hr2]
+        rw [ih a ((a + b) / 2) _ _ hl, ih ((a + b) / 2) b _ _ hr]
+        ring
+      · -- accepted: left + right + delta/15
+        have h15 : (15.0 : ℝ) = 15 := by norm_num
+        simp only [Cx.toC_add', Cx.toC_sub', Cx.toC_divs]
+        rw [hl, hr, hw, h15]; push_cast; ring
+
+theorem simpsonAdaptive_cubic (c0 c1 c2 c3 : Cx ℝ) (a b eps : ℝ) (depth : ℕ) :
+    (simpsonAdaptive (polyEval [c0, c1, c2, c3]) a b eps depth).toC
+      = cubicAnti c0.toC c1.toC c2.toC c3.toC b - cubicAnti c0.toC c1.toC c2.toC c3.toC a := by
+  unfold simpsonAdaptive
+  obtain ⟨h1, h2⟩ := mem_fst (polyEval [c0, c1, c2, c3]) a (polyEval [c0, c1, c2, c3] a) b
+    (polyEval [c0, c1, c2, c3] b)
+  simp only [h1, h2]
+  exact quadAsr_cubic c0 c1 c2 c3 depth a b eps _ (mem_cubic c0 c1 c2 c3 a b)
+
+/-! ### evaluations (termination within the fuel) -/
+
+theorem quadAsrEvals_le (f : ℝ → Cx ℝ) (depth : ℕ) :
+    ∀ (a : ℝ) (fa : Cx ℝ) (b : ℝ) (fb : Cx ℝ) (eps : ℝ) (whole : Cx ℝ) (m : ℝ) (fm : Cx ℝ),
+      quadAsrEvals f a fa b fb eps whole m fm depth + 2 ≤ 2 ^ (depth + 1) := by
+  induction depth with
+  | zero => intro a fa b fb eps whole m fm; simp [quadAsrEvals]
+  | succ d ih =>
+    intro a fa b fb eps whole m fm
+    unfold quadAsrEvals
+    have hp : 2 ^ (d + 1 + 1) = 2 * 2 ^ (d + 1) := by ring
+    have h4 : 4 ≤ 2 * 2 ^ (d + 1) := by
+      have : 1 ≤ 2 ^ d := Nat.one_le_two_pow
+      have : 2 ^ (d + 1) = 2 * 2 ^ d := by ring
+      omega
+    split_ifs with hstop
+    · omega
+    dsimp only
+    split_ifs with hacc
+    · have h1 := ih a fa m fm (eps / 2.0) (quadSimpsonsMem f a fa m fm).2.2
+        (quadSimpsonsMem f a fa m fm).1 (quadSimpsonsMem f a fa m fm).2.1
+      have h2 := ih m fm b fb (eps / 2.0) (quadSimpsonsMem f m fm b fb).2.2
+        (quadSimpsonsMem f m fm b fb).1 (quadSimpsonsMem f m fm b fb).2.1
+      omega
+    · omega
+
+theorem simpsonAdaptiveEvals_le (f : ℝ → Cx ℝ) (a b eps : ℝ) (depth : ℕ) :
+    simpsonAdaptiveEvals f a b eps depth ≤ 2 ^ (depth + 1) + 1 := by
+  unfold simpsonAdaptiveEvals
+  have := quadAsrEvals_le f depth a (f a) b (f b) eps (quadSimpsonsMem f a (f a) b (f b)).2.2
+    (quadSimpsonsMem f a (f a) b (f b)).1 (quadSimpsonsMem f a (f a) b (f b)).2.1
+  simp only at this ⊢
+  omega
+
+theorem Cx.ext' {z w : Cx ℝ} (h1 : z.re = w.re) (h2 : z.im = w.im) : z = w := by
+  cases z; cases w; simp_all
+
+theorem asrStop_symm (a b eps : ℝ) : asrStop b a eps = asrStop a b eps := by
+  simp only [asrStop, Transc.abs, abs_sub_comm]
+
+theorem mem_rev (f : ℝ → Cx ℝ) (a : ℝ) (fa : Cx ℝ) (b : ℝ) (fb : Cx ℝ) :
+    quadSimpsonsMem f b fb a fa
+      = ((quadSimpsonsMem f a fa b fb).1, (quadSimpsonsMem f a fa b fb).2.1,
+          Cx.neg (quadSimpsonsMem f a fa b fb).2.2) := by
+  have hm : (b + a) / (2.0 : ℝ) = (a + b) / (2.0 : ℝ) := by rw [add_comm]
+  simp only [quadSimpsonsMem, hm]
+  refine Prod.ext rfl (Prod.ext rfl ?_)
+  have h6 : (6.0 : ℝ) = 6 := by norm_num
+  apply Cx.ext' <;> simp only [Cx.smul, Cx.add, Cx.neg, h6, lit_four] <;> ring
+
+theorem Cx.abs_neg' (z : Cx ℝ) : Cx.abs (Cx.neg z) = Cx.abs z := by
+  simp [Cx.abs, Cx.normSq, Cx.neg]
+
+/-- **asr_reverse**: `quad_asr` on the reversed interval (with the negated `whole`) returns the
+negated value -/
+theorem quadAsr_reverse (f : ℝ → Cx ℝ) (depth : ℕ) :
+    ∀ (a : ℝ) (fa : Cx ℝ) (b : ℝ) (fb : Cx ℝ) (eps : ℝ) (whole : Cx ℝ) (m : ℝ) (fm : Cx ℝ),
+      quadAsr f b fb a fa eps (Cx.neg whole) m fm depth
+        = Cx.neg (quadAsr f a fa b fb eps whole m fm depth) := by
+  induction depth with
+  | zero => intro a fa b fb eps whole m fm; rfl
+  | succ d ih =>
+    intro a fa b fb eps whole m fm
+    unfold quadAsr
+    rw [asrStop_symm]
+    split_ifs with hstop
+    · rfl
+    · dsimp only
+      rw [mem_rev f m fm b fb, mem_rev f a fa m fm]
+      dsimp only
+      set L := quadSimpsonsMem f a fa m fm
+      set R := quadSimpsonsMem f m fm b fb
+      have hdelta : Cx.sub (Cx.add (Cx.neg R.2.2) (Cx.neg L.2.2)) (Cx.neg whole)
+          = Cx.neg (Cx.sub (Cx.add L.2.2 R.2.2) whole) := by
+        apply Cx.ext' <;> simp only [Cx.sub, Cx.add, Cx.neg] <;> ring
+      rw [hdelta, Cx.abs_neg']
+      split_ifs with hacc
+      · rw [ih m fm b fb, ih a fa m fm]
+        apply Cx.ext' <;> simp only [Cx.add, Cx.neg] <;> ring
+      · have h15 : (15.0 : ℝ) = 15 := by norm_num
+        apply Cx.ext' <;> simp only [Cx.sub, Cx.add, Cx.neg, Cx.divs, h15] <;> ring
+
+theorem simpsonAdaptive_reverse (f : ℝ → Cx ℝ) (a b eps : ℝ) (depth : ℕ) :
+    simpsonAdaptive f b a eps depth = Cx.neg (simpsonAdaptive f a b eps depth) := by
+  unfold simpsonAdaptive
+  dsimp only
+  rw [mem_rev f a (f a) b (f b)]
+  exact quadAsr_reverse f depth a (f a) b (f b) eps _ _ _
+
+theorem Cx.abs_mul' (c z : Cx ℝ) : Cx.abs (Cx.mul c z) = Cx.abs c * Cx.abs z := by
+  rw [Cx.abs_eq, Cx.abs_eq, Cx.abs_eq, Cx.toC_mul', norm_mul]
+
+theorem asrStop_scale (a b eps s : ℝ) (hs : 0 < s) : asrStop a b (s * eps) = asrStop a b eps := by
+  simp only [asrStop, lit_two]
+  have h1 : s * eps / 2 < s * eps ↔ eps / 2 < eps := by
+    rw [mul_div_assoc]; exact mul_lt_mul_iff_right₀ hs
+  have h2 : s * eps < s * eps / 2 ↔ eps < eps / 2 := by
+    rw [mul_div_assoc]; exact mul_lt_mul_iff_right₀ hs
+  simp only [h1, h2]
+
+theorem mem_scale (f : ℝ → Cx ℝ) (c : Cx ℝ) (a : ℝ) (fa : Cx ℝ) (b : ℝ) (fb : Cx ℝ) :
+    quadSimpsonsMem (fun x => Cx.mul c (f x)) a (Cx.mul c fa) b (Cx.mul c fb)
+      = ((quadSimpsonsMem f a fa b fb).1, Cx.mul c (quadSimpsonsMem f a fa b fb).2.1,
+          Cx.mul c (quadSimpsonsMem f a fa b fb).2.2) := by
+  have h6 : (6.0 : ℝ) = 6 := by norm_num
+  simp only [quadSimpsonsMem]
+  refine Prod.ext rfl (Prod.ext rfl ?_)
+  apply Cx.ext' <;> simp only [Cx.smul, Cx.add, Cx.mul, h6, lit_four] <;> ring
+
+/-- **asr_homogeneous**: scaling the integrand by a non-zero complex constant `c` and the tolerance
+by `|c|` scales the result by `c` (same subdivision tree) -/
+theorem quadAsr_scale (f : ℝ → Cx ℝ) (c : Cx ℝ) (hc : 0 < Cx.abs c) (depth : ℕ) :
+    ∀ (a : ℝ) (fa : Cx ℝ) (b : ℝ) (fb : Cx ℝ) (eps : ℝ) (whole : Cx ℝ) (m : ℝ) (fm : Cx ℝ),
+      quadAsr (fun x => Cx.mul c (f x)) a (Cx.mul c fa) b (Cx.mul c fb) (Cx.abs c * eps)
+          (Cx.mul c whole) m (Cx.mul c fm) depth
+        = Cx.mul c (quadAsr f a fa b fb eps whole m fm depth) := by
+  induction depth with
+  | zero => intro a fa b fb eps whole m fm; rfl
+  | succ d ih =>
+    intro a fa b fb eps whole m fm
+    unfold quadAsr
+    rw [asrStop_scale a b eps _ hc]
+    split_ifs with hstop
+    · rfl
+    · dsimp only
+      rw [mem_scale f c a fa m fm, mem_scale f c m fm b fb]
+      dsimp only
+      set L := quadSimpsonsMem f a fa m fm
+      set R := quadSimpsonsMem f m fm b fb
+      have hdelta : Cx.sub (Cx.add (Cx.mul c L.2.2) (Cx.mul c R.2.2)) (Cx.mul c whole)
+          = Cx.mul c (Cx.sub (Cx.add L.2.2 R.2.2) whole) := by
+        apply Cx.ext' <;> simp only [Cx.sub, Cx.add, Cx.mul] <;> ring
+      have h15 : (15.0 : ℝ) = 15 := by norm_num
+      rw [hdelta, Cx.abs_mul']
+      simp only [h15]
+      have hcond : (15 : ℝ) * (Cx.abs c * eps) < Cx.abs c * Cx.abs (Cx.sub (Cx.add L.2.2 R.2.2) whole)
+          ↔ (15 : ℝ) * eps < Cx.abs (Cx.sub (Cx.add L.2.2 R.2.2) whole) := by
+        rw [show (15 : ℝ) * (Cx.abs c * eps) = Cx.abs c * ((15 : ℝ) * eps) by ring]
+        exact mul_lt_mul_iff_right₀ hc
+      simp only [hcond]
+      have heps : Cx.abs c * eps / (2.0 : ℝ) = Cx.abs c * (eps / (2.0 : ℝ)) := mul_div_assoc _ _ _
+      split_ifs with hacc
+      · rw [heps, ih a fa m fm, ih m fm b fb]
+        apply Cx.ext' <;> simp only [Cx.add, Cx.mul] <;> ring
+      · apply Cx.ext' <;> simp only [Cx.sub, Cx.add, Cx.mul, Cx.divs] <;> ring
+
+theorem simpsonAdaptive_scale (f : ℝ → Cx ℝ) (c : Cx ℝ) (hc : 0 < Cx.abs c) (a b eps : ℝ) (depth : ℕ) :
+    simpsonAdaptive (fun x => Cx.mul c (f x)) a b (Cx.abs c * eps) depth
+      = Cx.mul c (simpsonAdaptive f a b eps depth) := by
+  unfold simpsonAdaptive
+  dsimp only
+  rw [mem_scale f c a (f a) b (f b)]
+  exact quadAsr_scale f c hc depth a (f a) b (f b) eps _ _ _
 
 end Spdc.Quad
